@@ -3,10 +3,16 @@
 (* C09, code-shaped machine: MOFCompiler.compile_file / compile_string as  *)
 (* a stack machine over the session's include graph.                       *)
 (*                                                                         *)
-(*   frame  = [f, pc, saved]   file being parsed, next production, and the *)
-(*            value of parser.file saved by compile_string on entry        *)
+(*   frame  = [f, pc, saved, savedmof]   file being parsed, next           *)
+(*            production, and the values of parser.file / parser.mof saved *)
+(*            by compile_string on entry                                   *)
 (*   pfile  = parser.file (what an error reports as its file)              *)
+(*   pmof   = the text parser.mof holds (line/column/context of an error   *)
+(*            are computed by indexing THAT text with the token's offset); *)
+(*            EmbText = the string of an embedded value                    *)
 (*   emb    = parser.embedded_objects is not None                          *)
+(*   cyc    = the class declared last (what `of_prev` names) is its own    *)
+(*            ancestor in the repository                                   *)
 (*                                                                         *)
 (* A compile call pushes a frame; `#pragma include` (p_compilerDirective ->*)
 (* compile_file -> compile_string) pushes another one; a normal return     *)
@@ -31,43 +37,53 @@ EXTENDS MofCompileImplOps
 
 CONSTANTS MaxProd, MaxDepth, OnlyKinds
 
-VARIABLES ses, phase, stack, pfile, emb, nsw, out, errfile, errowner, lost
-vars == <<ses, phase, stack, pfile, emb, nsw, out, errfile, errowner, lost>>
+VARIABLES ses, phase, stack, pfile, pmof, emb, nsw, cyc, out, errfile,
+          errowner, lost
+vars == <<ses, phase, stack, pfile, pmof, emb, nsw, cyc, out, errfile,
+          errowner, lost>>
 
 Parts == SessionParts(MaxProd, OnlyKinds)
 
 GoodText == <<PlainOf("qualDecl"), PlainOf("class"), PlainOf("instance")>>
 GoodFile == 9
+EmbText == 50
 
 ProdsOf(f) == IF f = 1 THEN ses.main ELSE IF f = 2 THEN ses.inc ELSE GoodText
 
-Frame(f, saved) == [f |-> f, pc |-> 1, saved |-> saved]
+Frame(f, saved, savedmof) ==
+  [f |-> f, pc |-> 1, saved |-> saved, savedmof |-> savedmof]
 
 Init == /\ \E i \in DOMAIN Parts : ses \in Parts[i]
         /\ phase = "bad"
-        /\ stack = <<Frame(1, 0)>>
-        /\ pfile = 1
-        /\ emb = FALSE /\ nsw = FALSE /\ lost = FALSE
+        /\ stack = <<Frame(1, 0, 0)>>
+        /\ pfile = 1 /\ pmof = 1
+        /\ emb = FALSE /\ nsw = FALSE /\ lost = FALSE /\ cyc = FALSE
         /\ out = "" /\ errfile = 0 /\ errowner = 0
 
 Top == stack[Len(stack)]
 OnStack(f) == \E i \in DOMAIN stack : stack[i].f = f
 Bump == [stack EXCEPT ![Len(stack)].pc = @ + 1]
 
+\* An error is built from the token's offset in the text being parsed and
+\* from parser.mof (_find_column, _get_error_context index parser.mof with
+\* that offset).  If parser.mof is another - shorter - text, indexing fails.
+RaiseOuts(x) == IF x \in MOFErrors /\ pmof # Top.f THEN {x, "IndexError"}
+                ELSE {x}
 Raise(x, p) ==
-  /\ out' = x
+  /\ out' \in RaiseOuts(x)
   /\ errfile' = pfile
   /\ errowner' = Top.f
   /\ stack' = << >>
   /\ emb' = IF EmbRuns(p) /\ ~EmbFinally THEN TRUE ELSE emb
-  /\ UNCHANGED <<ses, phase, pfile, nsw, lost>>
+  /\ UNCHANGED <<ses, phase, pfile, pmof, nsw, cyc, lost>>
 
 Return ==
   /\ Top.pc > Len(ProdsOf(Top.f))
   /\ stack' = SubSeq(stack, 1, Len(stack) - 1)
   /\ pfile' = IF RestoreOnReturn THEN Top.saved ELSE pfile
+  /\ pmof' = IF RestoreOnReturn THEN Top.savedmof ELSE pmof
   /\ out' = IF Len(stack) = 1 THEN "ok" ELSE out
-  /\ UNCHANGED <<ses, phase, emb, nsw, errfile, errowner, lost>>
+  /\ UNCHANGED <<ses, phase, emb, nsw, cyc, errfile, errowner, lost>>
 
 IncludeTarget(p) ==
   IF p.v = "inc2" THEN 2 ELSE IF p.v = "mutual" THEN 1 ELSE Top.f
@@ -80,11 +96,11 @@ Step ==
      THEN LET g == IncludeTarget(p) IN
           IF IncludeGuard /\ OnStack(g) THEN Raise("MOFParseError", p)
           ELSE IF Len(stack) >= MaxDepth THEN Raise("RecursionError", p)
-          ELSE /\ stack' = Append(Bump, Frame(g, pfile))
-               /\ pfile' = g
-               /\ UNCHANGED <<ses, phase, emb, nsw, out, errfile, errowner,
-                              lost>>
-     ELSE \E r \in ImplProd(p, [nsw |-> nsw, emb |-> emb]) :
+          ELSE /\ stack' = Append(Bump, Frame(g, pfile, pmof))
+               /\ pfile' = g /\ pmof' = g
+               /\ UNCHANGED <<ses, phase, emb, nsw, cyc, out, errfile,
+                              errowner, lost>>
+     ELSE \E r \in ImplProd(p, [nsw |-> nsw, emb |-> emb, cyc |-> cyc]) :
             IF r = "ok"
             THEN /\ stack' = Bump
                  /\ nsw' = (nsw \/ (p.k = "namespace" /\ p.d = "none"
@@ -93,6 +109,11 @@ Step ==
                  \* an instance compiled while embedded_objects is a list is
                  \* appended to that list instead of being created
                  /\ lost' = (lost \/ (emb /\ p.k = "instance"))
+                 \* compile_embedded_value: parser.mof := the value (each
+                 \* element of a list in turn); restored afterwards
+                 /\ pmof' = IF EmbList(p) /\ ~EmbRestoreAll THEN EmbText
+                            ELSE pmof
+                 /\ cyc' = CycAfter(p, cyc)
                  /\ UNCHANGED <<ses, phase, pfile, out, errfile, errowner>>
             ELSE Raise(r, p)
 
@@ -101,16 +122,16 @@ Running == phase \in {"bad", "good"} /\ out = "" /\ stack # << >>
 StartGood ==
   /\ phase = "bad" /\ out # ""
   /\ phase' = "good"
-  /\ stack' = <<Frame(GoodFile, pfile)>>
-  /\ pfile' = GoodFile
+  /\ stack' = <<Frame(GoodFile, pfile, pmof)>>
+  /\ pfile' = GoodFile /\ pmof' = GoodFile
   /\ nsw' = FALSE          \* compile_string sets target_namespace from ns
-  /\ out' = "" /\ lost' = FALSE
+  /\ out' = "" /\ lost' = FALSE /\ cyc' = FALSE
   /\ UNCHANGED <<ses, emb, errfile, errowner>>
 
 Finish == /\ phase = "good" /\ out # ""
           /\ phase' = "end"
-          /\ UNCHANGED <<ses, stack, pfile, emb, nsw, out, errfile, errowner,
-                         lost>>
+          /\ UNCHANGED <<ses, stack, pfile, pmof, emb, nsw, cyc, out, errfile,
+                         errowner, lost>>
 
 Next == (Running /\ (Return \/ Step)) \/ StartGood \/ Finish
 Spec == Init /\ [][Next]_vars /\ WF_vars(Next)
